@@ -843,6 +843,73 @@ def forward_attribute_copies(fn, known_locals):
   return fn
 
 
+def expand_setattr_loops(fn, known_locals):
+  """d = {'a': x, 'b': y}
+     for k, v in d.items(): setattr(self, k, v)     ->   self.a = x; self.b = y
+  for a dict display with constant identifier keys bound once to an unknown
+  local that is not changed in between.  (The values are evaluated when the
+  display is built; the normal form re-reads the expressions, which is the
+  same for the names / attributes / constants accepted here.)"""
+  for owner in ast.walk(fn):
+    for f in ('body', 'orelse', 'finalbody'):
+      block = getattr(owner, f, None)
+      if not (isinstance(block, list) and block and isinstance(
+          block[0], ast.stmt)):
+        continue
+      for j, loop in enumerate(block):
+        if not (isinstance(loop, ast.For) and not loop.orelse and len(
+            loop.body) == 1 and isinstance(loop.iter, ast.Call) and
+                isinstance(loop.iter.func, ast.Attribute) and
+                loop.iter.func.attr == 'items' and not loop.iter.args and
+                isinstance(loop.iter.func.value, ast.Name) and isinstance(
+                    loop.target, ast.Tuple) and len(loop.target.elts) == 2
+                and all(isinstance(e, ast.Name) for e in loop.target.elts)):
+          continue
+        dname = loop.iter.func.value.id
+        if dname in known_locals:
+          continue
+        kv, vv = [e.id for e in loop.target.elts]
+        st = loop.body[0]
+        if not (isinstance(st, ast.Expr) and isinstance(st.value, ast.Call)
+                and isinstance(st.value.func, ast.Name) and
+                st.value.func.id == 'setattr' and len(st.value.args) == 3 and
+                not st.value.keywords and isinstance(
+                    st.value.args[0], ast.Name) and isinstance(
+                        st.value.args[1], ast.Name) and
+                st.value.args[1].id == kv and isinstance(
+                    st.value.args[2], ast.Name) and
+                st.value.args[2].id == vv):
+          continue
+        obj = st.value.args[0].id
+        defs = [b for b in block[:j] if isinstance(b, ast.Assign) and len(
+            b.targets) == 1 and isinstance(b.targets[0], ast.Name) and
+                b.targets[0].id == dname]
+        stores = [n for n in ast.walk(fn) if isinstance(n, ast.Name) and
+                  n.id == dname and isinstance(n.ctx, (ast.Store, ast.Del))]
+        if len(defs) != 1 or len(stores) != 1 or not isinstance(
+            defs[0].value, ast.Dict):
+          continue
+        d = defs[0].value
+        if not all(isinstance(k, ast.Constant) and isinstance(k.value, str)
+                   and k.value.isidentifier() for k in d.keys):
+          continue
+        if not all(_simple(v) for v in d.values):
+          continue
+        new = []
+        for k, v in zip(d.keys, d.values):
+          a = ast.Assign(targets=[ast.Attribute(
+              value=ast.Name(id=obj, ctx=ast.Load()), attr=k.value,
+              ctx=ast.Store())], value=copy.deepcopy(v), lineno=loop.lineno)
+          ast.copy_location(a, loop)
+          new.append(a)
+        for k_, a in enumerate(new):
+          a.col_offset = getattr(loop, 'col_offset', 0) + k_
+        block[j:j + 1] = new
+        ast.fix_missing_locations(fn)
+        return expand_setattr_loops(fn, known_locals)
+  return fn
+
+
 def expand_kwargs_dicts(fn, known_locals):
   """shared = dict(a=x, b=y) / {'a': x, 'b': y};  f(**shared, c=z)  ->
   f(a=x, b=y, c=z)   for an unknown local that is assigned once, never
@@ -2199,6 +2266,7 @@ def normalise_module(modname, tree):
                                inv[q].get('flat'))
         restore_loop_targets(fn, inv[q].get('loops'), known)
         split_tuple_assignments(fn)
+        expand_setattr_loops(fn, known)
         expand_kwargs_dicts(fn, known)
         coalesce_copies(fn, known)
         forward_attribute_copies(fn, known)
